@@ -17,7 +17,8 @@ From Oras Require Import Base.Prelude Generated.GC05.
 (* ------------------------------------------------------------------ errors *)
 Inductive rerr :=
 | EEof | EInjected | EUnexpEof | EBadDigest | ETrailing | EMismatch | EEarly
-| EInvalidSize | EExists | ETooBig | ENotFound | EDupName | EFuel.
+| EInvalidSize | EExists | ETooBig | ENotFound | EDupName | EFuel
+| EWrite | EShortWrite | ETraversal.
 
 Definition is_eof (e : rerr) : bool := match e with EEof => true | _ => false end.
 
@@ -266,6 +267,51 @@ Section WithH.
     match e with
     | Some e0 => ((Some e0, out), v')
     | None => let '(e1, v'') := vr_verify fuel dg v' in ((e1, out), v'')
+    end.
+
+  (* ---------------------------------------------------------------- CopyBuffer into a destination that may fail *)
+  (* the destination accepts [w_left] more bytes; then, depending on [w_mode], a Write
+     returns the accepted prefix with an error (WFail) or without one (WShort: io.Copy
+     answers io.ErrShortWrite); w_mode = None: it never fails *)
+  Inductive wmode := WFail | WShort.
+  Record writer := mkW { w_mode : option wmode; w_left : nat }.
+
+  Definition w_write (w : writer) (bs : str) : (str * option rerr) * writer :=
+    match w_mode w with
+    | None => ((bs, None), w)
+    | Some m =>
+        if (length bs <=? w_left w)%nat then ((bs, None), mkW (w_mode w) (w_left w - length bs))
+        else ((firstn (w_left w) bs, Some (match m with WFail => EWrite | WShort => EShortWrite end)),
+              mkW (w_mode w) 0)
+    end.
+
+  (* io.CopyBuffer: a write fault ends the loop before the read error is looked at *)
+  Fixpoint copy_loop_w (fuel : nat) (v : vrd) (bufsz : nat) (out : str) (w : writer)
+    : ((option rerr * str) * vrd) * writer :=
+    match fuel with
+    | O => (((Some EFuel, out), v), w)
+    | Datatypes.S f =>
+        let '((bs, e), v') := vr_read v bufsz in
+        let '((acc, we), w') := match bs with [] => (([], None), w) | _ => w_write w bs end in
+        let out' := out ++ acc in
+        match we with
+        | Some werr => (((Some werr, out'), v'), w')
+        | None =>
+            match e with
+            | None => copy_loop_w f v' bufsz out' w'
+            | Some EEof => (((None, out'), v'), w')
+            | Some e0 => (((Some e0, out'), v'), w')
+            end
+        end
+    end.
+
+  Definition copy_buffer_w (fuel : nat) (src : base) (bufsz : nat) (dg : str) (sz : Z) (w : writer)
+    : ((option rerr * str) * vrd) * writer :=
+    let v := new_vr src dg sz in
+    let '(((e, out), v'), w') := copy_loop_w fuel v bufsz [] w in
+    match e with
+    | Some e0 => (((Some e0, out), v'), w')
+    | None => let '(e1, v'') := vr_verify fuel dg v' in (((e1, out), v''), w')
     end.
 
   (* ---------------------------------------------------------------- descriptors *)
